@@ -123,7 +123,7 @@ def expected_from_sexp(design):
 
 
 def compare(ctx, exp, n, what):
-    errs = wf.self_contained(n)
+    errs = wf.self_contained(n, strict_refsets=True)
     if errs:
         return "reader-output-ill-formed:%s" % errs[0][0], "%s: %s" % (what, errs[0][1])
     got = from_netlist(n, ctx)
